@@ -10,6 +10,7 @@ import XtModel.Props.C03
 import XtModel.Props.C07
 import XtModel.Props.C09
 import XtModel.Props.C11
+import XtModel.Props.C18
 
 /-!
 # C17 — Memory safety of the YAML parser binding and decoders  (PARTIAL)
@@ -52,7 +53,7 @@ Obligations (`props/C17.py`): `sites_covered`, `unsafe_sites_covered`,
 `read_handler_total`, `read_handler_success_iff`, `events_drop_safe`,
 `unchecked_char_is_scalar`, `surrogate_pair_arith`, `bmp_unit_is_scalar`,
 `no_panic_encoding`, `arraybuffer_no_panic`, `consts_agree`,
-`detect_len_agrees`, and by absolute name the guard lemmas of
+`detect_len_agrees`, `depth_limit_agrees`, and by absolute name the guard lemmas of
 `Xt.Chunker.Guards` and `Xt.Encoding.dec16_scalar` / `dec32_scalar`.
 -/
 namespace Xt.Props.C17
@@ -88,7 +89,7 @@ theorem no_stale_accounts :
   Xt.Props.C04Sites.no_stale_accounts
 
 /-- Theorems named in `covered` that live on a branch not merged yet. -/
-def pendingTheorems : List String := ["Xt.Props.C18.no_panic_msgsize"]
+def pendingTheorems : List String := []
 
 /-- A name given as a dotted string. -/
 def toName (s : String) : Lean.Name :=
@@ -343,6 +344,9 @@ theorem consts_agree :
     Xt.Generated.DEPTH_LIMIT = 1024 ∧ Xt.Generated.SIZE_CUTOFF = 2 * 1024 ^ 2 ∧
     Xt.Generated.DETECT_LEN = 4 ∧ Xt.Generated.MAX_UTF8_ENCODED_LEN = 4 := by decide
 
+/-- The MessagePack model's depth limit is the generated `DEPTH_LIMIT`. -/
+theorem depth_limit_agrees : Xt.Msgpack.depthLimit = Xt.Generated.DEPTH_LIMIT := by decide
+
 /-- The encoding model's `from_reader` detects on exactly `DETECT_LEN` bytes. -/
 theorem detect_len_agrees (bytes : List Nat) :
     Xt.Encoding.fromReaderStream bytes =
@@ -367,6 +371,7 @@ theorem detect_len_agrees (bytes : List Nat) :
 #print axioms arraybuffer_no_panic
 #print axioms consts_agree
 #print axioms detect_len_agrees
+#print axioms depth_limit_agrees
 #print axioms Xt.Chunker.Guards.copy_len_in_bounds
 #print axioms Xt.Chunker.Guards.overreport_is_stashed
 #print axioms Xt.Chunker.Guards.chunkreader_overreport_is_clean_panic
